@@ -163,7 +163,7 @@ pub fn run(ctx: &Ctx) -> i32 {
         Finish {
             ctx,
             level: "exploration",
-            rule: "instances with 1-3 ports in every combination of master-only, slave-only (from start or toggled at run time), E2E/P2P, acceptable-master lists, Kalman/Basic filter; histories <= 40 (thorough 120) ops over timers (armed or not), BMCA with permuted port order, well-formed Announces from better/best/worse/own-instance/unacceptable masters (consecutive, duplicate and stale sequence ids), Sync/Follow_Up/Delay_Resp/Pdelay traffic from the parent and from others, transmit timestamps (possibly late / after a state change), SetSlaveOnly, SetClockQuality; every clock call is attributed to the calling port. Invariants after every op (DESIGN.md C08). Non-trivial = >= 2 ports and >= 2 distinct port states visited, or a run-time SetSlaveOnly; distinct by op list. Part daemon: the real statime daemon with two ports between two masters played by the harness (P on the first segment, priority1 100; Q on the second, priority1 50 or 120) that come and go in 3-6 generated phases of 0.7-1.5 s, so that the ports change roles; the observation socket is polled every 20 ms and every frame the daemon sends is noted with its segment; never two slave ports; Announce/Sync/Follow_Up/Delay_Resp on a segment only while that port is, or within 200 ms becomes or was, master; no Delay_Req from a port that is master throughout the surrounding 400 ms; workers 4-7 run a slave-only instance (never a master port, never master traffic), a master-only port on either segment (never slave, never a Delay_Req), or both. Non-trivial there = >= 2 distinct states seen around the daemon's frames.",
+            rule: "instances with 1-3 ports in every combination of master-only, slave-only (from start or toggled at run time), E2E/P2P, acceptable-master lists, Kalman/Basic filter; histories <= 40 (thorough 120) ops over timers (armed or not), BMCA with permuted port order, well-formed Announces from better/best/worse/own-instance/unacceptable masters (consecutive, duplicate and stale sequence ids), Sync/Follow_Up/Delay_Resp/Pdelay traffic from the parent and from others, transmit timestamps (possibly late / after a state change), SetSlaveOnly, SetClockQuality; every clock call is attributed to the calling port. Invariants after every op (DESIGN.md C08). Non-trivial = >= 2 ports and >= 2 distinct port states visited, or a run-time SetSlaveOnly; distinct by op list. Part daemon: the real statime daemon with two ports between two masters played by the harness (P on the first segment, priority1 100; Q on the second, priority1 50 or 120) that come and go in 3-6 generated phases of 0.7-1.5 s, so that the ports change roles; the observation socket is polled every 20 ms and every frame the daemon sends is noted with its segment; never two slave ports; Announce/Sync/Follow_Up/Delay_Resp on a segment only while that port is, or within 200 ms becomes or was, master; no Delay_Req from a port that is master throughout the surrounding 400 ms; workers 4-7 run a slave-only instance (never a master port, never master traffic), a master-only port on either segment (never slave, never a Delay_Req), or both. Non-trivial there = >= 2 distinct port states among the observations of the case.",
             assumptions: vec!["Clock::set_properties is not counted as adjusting the clock".into(), "emission rules use the port state at the moment of the call".into()],
             min_nontrivial: 100,
         },
